@@ -2,7 +2,7 @@
    Model: C05/WriteLoop.v (Prepare/Write steps of any number of writers of one document, any schedule).
    Only property theorems here, each closed by [exact]. *)
 From Coq Require Import Permutation.
-From SG Require Import Base.Prelude C05.WriteLoop C05.WriteLoopProofs C05.WriteLoopTheorems C05.WriteLoopParents C05.WriteLoopTree C05.WriteLoopLinear.
+From SG Require Import Base.Prelude C05.WriteLoop C05.WriteLoopProofs C05.WriteLoopTheorems C05.WriteLoopParents C05.WriteLoopTree C05.WriteLoopLinear C05.RevOptions.
 Open Scope N_scope.
 
 (* every acknowledged write is present in the document's revision history and has its own commit/sequence,
@@ -124,6 +124,75 @@ Theorem C05_no_delete_all_live : forall tab ops sched,
 Proof. exact no_delete_all_live. Qed.
 Print Assumptions C05_no_delete_all_live.
 
+(* ONE ACCEPTED CHILD PER PARENT in a conflict-free database, ALL writers (REST writes and pushed revisions with any
+   write options), every interleaving.  Each acknowledged write either
+     (1) is a pushed revision whose options carry ForceAllowConflictingTombstone and whose successful callback ran on a
+         document that was a tombstone (the tree the earlier commits produced has a deleted winner) -- the only way
+         the conflict check is skipped -- or
+     (2) every revision it added is, at its commit, the ONLY child of its parent: no revision stored before it and no
+         other revision it adds has the same parent.
+   So a parent gets a second accepted child ONLY through (1). *)
+Theorem C05_conflict_free_second_child_only_forced : forall tab ops sched l1 c l2,
+  let s := run true false false tab ops sched in
+  commits s = l1 ++ c :: l2 ->
+  (c_put c = false /\ w_push (c_op c) <> [] /\ o_force (w_opt (c_op c)) = true /\
+   tree_tombstoned (flat_map c_added l1) = true) \/
+  (forall x y q, In x (flat_map c_added l1 ++ c_added c) -> In y (c_added c) ->
+                 r_parent x = Some q -> r_parent y = Some q -> x = y).
+Proof. exact conflict_free_second_child_only_forced. Qed.
+Print Assumptions C05_conflict_free_second_child_only_forced.
+
+(* the same for a single write in a database that allows conflicts: a pushed revision written with NoConflicts (the
+   "noconflicts" property of a rev message) is bound by the same rule *)
+Theorem C05_noconflict_write_second_child_only_forced : forall ac tab ops sched l1 c l2,
+  let s := run true false ac tab ops sched in
+  commits s = l1 ++ c :: l2 -> ac && negb (o_noconf (w_opt (c_op c))) = false ->
+  (c_put c = false /\ w_push (c_op c) <> [] /\ o_force (w_opt (c_op c)) = true /\
+   tree_tombstoned (flat_map c_added l1) = true) \/
+  (forall x y q, In x (flat_map c_added l1 ++ c_added c) -> In y (c_added c) ->
+                 r_parent x = Some q -> r_parent y = Some q -> x = y).
+Proof. exact noconflict_write_second_child_only_forced. Qed.
+Print Assumptions C05_noconflict_write_second_child_only_forced.
+
+(* the characterisation is exact: with the option on a tombstoned document the conflict rules are not consulted at
+   all (the plan is the one of a database that allows conflicts, never a 409), in either mode ... *)
+Theorem C05_forced_tombstone_skips_conflict_check : forall ac o t,
+  o_force (w_opt o) = true -> tree_tombstoned t = true ->
+  push_plan ac o t = Some (push_check true true t (w_push o) (w_deleted o)) /\
+  push_check true true t (w_push o) (w_deleted o) <> PConflict.
+Proof. exact forced_plan_ignores_conflicts. Qed.
+Print Assumptions C05_forced_tombstone_skips_conflict_check.
+
+(* ... and when no pushed revision carries the option, every stored revision is the only child of its parent *)
+Theorem C05_conflict_free_unforced_one_child_per_parent : forall tab ops sched,
+  (forall o, In o ops -> w_push o <> [] -> o_force (w_opt o) = false) ->
+  uc (d_tree (st (run true false false tab ops sched))).
+Proof. exact conflict_free_unforced_one_child_per_parent. Qed.
+Print Assumptions C05_conflict_free_unforced_one_child_per_parent.
+
+(* THE BLIP REV HANDLER'S RULE (RevOptions.v, [rev_opts] = the assignments before the write in processRev): a
+   connection opened by a client -- not a peer Sync Gateway, no conflict resolver of either kind -- never derives
+   ForceAllowConflictingTombstone, whatever the message says *)
+Theorem C05_plain_client_never_forces_conflicting_tombstone : forall k deleted noconflicts,
+  plain_client k -> o_force (rev_opts k deleted noconflicts) = false.
+Proof. exact plain_never_forces. Qed.
+Print Assumptions C05_plain_client_never_forces_conflicting_tombstone.
+
+(* exactly: the option is derived for a tombstone that arrives from a peer gateway or on a connection with a resolver *)
+Theorem C05_force_derived_iff : forall k deleted noconflicts,
+  o_force (rev_opts k deleted noconflicts) = true <->
+  deleted = true /\ (k_sgr2 k = true \/ k_rt_resolver k = true \/ k_hlv_resolver k = true).
+Proof. exact force_derived_iff. Qed.
+Print Assumptions C05_force_derived_iff.
+
+(* end to end: conflict-free database, every interleaving of any number of REST writers and of revisions pushed by
+   plain clients (any noconflicts property): each stored revision is the only child of its parent *)
+Theorem C05_plain_clients_one_child_per_parent : forall tab ops sched,
+  (forall o, In o ops -> w_push o <> [] -> exists k nc, plain_client k /\ w_opt o = rev_opts k (w_deleted o) nc) ->
+  uc (d_tree (st (run true false false tab ops sched))).
+Proof. exact plain_clients_one_child_per_parent. Qed.
+Print Assumptions C05_plain_clients_one_child_per_parent.
+
 (* feed_final_rev: the stored current revision (what the feed announces together with the stored sequence) is the
    winner of the stored tree, and the winner is its maximal leaf -- no leaf beats it in winningRevision's order
    (live before deleted, then generation, then digest) and it beats every other leaf; the stored sequence and
@@ -174,3 +243,15 @@ Proof.
   vm_compute. split; [|split; [reflexivity | split; [reflexivity | eexists; split; [reflexivity | split; [reflexivity | repeat split]]]]].
   intros x H. repeat (destruct H as [<-|H]; [discriminate|]). destruct H.
 Qed.
+
+(* non-vacuity of the one-child-per-parent characterisation: 1-1 is deleted by 2-21, then a different tombstone 2-22
+   of 1-1 is pushed.  From a peer gateway it is acknowledged (case (1) happens: two accepted children); from a
+   client it gets the conflict error, leaves no trace and keeps no sequence *)
+Example C05_nonvacuous_forced_tombstone :
+  (let s := run true false false [] (tomb_ops peer_gateway) tomb_sched in
+   map w_out (ws s) = [Some (OAck (1, 1) 1); Some (OAck (2, 21) 2); Some (OAck (2, 22) 3)] /\ ~ uc (d_tree (st s))) /\
+  (let s := run true false false [] (tomb_ops client_conn) tomb_sched in
+   map w_out (ws s) = [Some (OAck (1, 1) 1); Some (OAck (2, 21) 2); Some OConflict] /\
+   length (d_tree (st s)) = 2%nat /\ d_seq (st s) = 2 /\ last s = 2) /\
+  plain_client client_conn.
+Proof. split; [exact forced_tombstone_second_child | split; [exact plain_tombstone_refused | repeat split]]. Qed.
